@@ -1,6 +1,160 @@
-From Asynkit Require Import Base.Prelude Sched.Model.
-(* placeholder: the C09 theorems land in Sched/PartitionProofs.v *)
-Theorem C09_blocked_not_runnable :
-  forall s t, task_is_blocked s t = true -> task_is_runnable s t = false.
-Proof. intros s t H. unfold task_is_runnable. rewrite H. reflexivity. Qed.
-Print Assumptions C09_blocked_not_runnable.
+(* C09 - runnable, blocked and current tasks partition all tasks.
+   Model: Sched/Model.v (validated by the correspondence check of Sched/Corr.v).
+   Invariant and proofs: Sched/PartTables.v, PartitionProofs.v, PartitionSteps.v,
+   PartitionRun.v, PartitionFinal.v.
+
+   Vocabulary (PartTables.v):
+     hcnt s t    number of entries of the ready queue that are step/wakeup handles of task t
+     ccnt s t g  number of copies of t's wake-up callback among the callbacks of future g
+     bo s t      the PENDING future t waits on (twaiter), if any
+     qok_list    "the ready queue is the list queue" (stock loop / scheduling loops)
+     action_ok   side condition on user programs: task_timeout's exit (OTimeoutExit b) is only
+                 called with a block id returned by an earlier enter (coro_ok) *)
+From Coq Require Import QArith Sorting.Permutation.
+From Asynkit Require Import Base.Prelude Queue.PosPQ Sched.Model Sched.PartTables Sched.PartitionProofs
+     Sched.PartitionSteps Sched.PartitionRun Sched.PartitionFinal.
+Open Scope nat_scope.
+
+(* what Inv09 says between two actions: every task is done (D), runnable (R) or blocked (B) *)
+Theorem C09_inv_meaning :
+  forall qok s, Inv09 qok s -> current s = None /\
+  forall t, t < length (tasks s) ->
+    (* D *) tdone s t = true \/
+    (* R *) (tdone s t = false /\
+             (twaiter (gett s t) = None \/ exists f, twaiter (gett s t) = Some f /\ fdone s f = true) /\
+             hcnt s t = 1 /\ forall g, fdone s g = false -> ccnt s t g = 0) \/
+    (* B *) (tdone s t = false /\
+             exists f, twaiter (gett s t) = Some f /\ fdone s f = false /\
+                       hcnt s t = 0 /\ ccnt s t f = 1 /\
+                       forall g, g <> f -> fdone s g = false -> ccnt s t g = 0).
+Proof.
+  intros qok s [I Hc]. split; auto. intros t Ht.
+  destruct (tdone s t) eqn:Hd; [left; reflexivity|right].
+  pose proof (i_cls I t Ht Hd) as C. unfold cls in C. simpl in C. destruct C as [R1 R2].
+  unfold bo in R1, R2. destruct (twaiter (gett s t)) as [f|] eqn:Hw.
+  - destruct (fdone s f) eqn:Hf.
+    + left. split; auto. split; eauto.
+    + right. split; auto. exists f. repeat split; auto.
+      * rewrite (R2 f Hf), Nat.eqb_refl. reflexivity.
+      * intros g Hn Hg. rewrite (R2 g Hg). destruct (Nat.eqb_spec f g); congruence.
+  - left. split; auto.
+Qed.
+Print Assumptions C09_inv_meaning.
+
+(* Inv09 holds initially and is preserved by every environment action (run one handle,
+   begin an iteration / timers, advance the clock, spawn any program, any library call
+   from outside) - for every user program, on any ready queue meeting QSpec *)
+Theorem C09_inv_generic :
+  forall qok, QSpec qok ->
+  (forall prio factor draws lks cds nev,
+     qok (ready (init_st prio factor draws lks cds nev)) ->
+     Inv09 qok (init_st prio factor draws lks cds nev)) /\
+  (forall s a, Inv09 qok s -> action_ok s a -> Inv09 qok (do_action s a)) /\
+  (forall l s, Inv09 qok s -> actions_ok s l -> Inv09 qok (fold_left do_action l s)).
+Proof.
+  intros qok QS. split; [|split].
+  - intros. apply Inv09_init; auto.
+  - intros. apply Inv09_action; auto.
+  - intros. apply Inv09_run; auto.
+Qed.
+Print Assumptions C09_inv_generic.
+
+(* ... in particular, unconditionally, on the list queue (stock loop and scheduling loops) *)
+Theorem C09_inv :
+  forall factor draws lks cds nev l,
+    let s0 := init_st false factor draws lks cds nev in
+    actions_ok s0 l -> Inv09 qok_list (fold_left do_action l s0).
+Proof.
+  intros. apply (Inv09_run qok_list QSpec_list); auto.
+  apply (Inv09_init qok_list). exact Logic.I.
+Qed.
+Print Assumptions C09_inv.
+
+(* inside a step too: library calls and user code keep the invariant with the running
+   task in class (C) (no handle, no wake-up callback, not waiting on a pending future) *)
+Theorem C09_inv_inside_step :
+  forall qok, QSpec qok -> forall c t,
+  (forall op s s' r, lib_call t op s = (s', r) -> op_ok (length (blocks s)) op ->
+                     InvC qok c s -> InvC qok c s' /\ current s' = current s) /\
+  (forall c0 s s' o, exec t c0 s = (s', o) -> coro_ok (length (blocks s)) c0 ->
+                     InvC qok c s -> InvC qok c s' /\ current s' = current s).
+Proof.
+  intros qok QS c t. split.
+  - intros op s s' r E Hop I. destruct (lib_call_K qok QS c t op s s' r E Hop I) as [[I' Ex] _].
+    split; auto. apply (e_cur Ex).
+  - intros c0 s s' o E Hok I. destruct (exec_K qok QS c t c0 s s' o E Hok I) as [[I' Ex] _].
+    split; auto. apply (e_cur Ex).
+Qed.
+Print Assumptions C09_inv_inside_step.
+
+(* the partition: under Inv09 (between steps: current = None; inside a step: current = the
+   running task) every live task is in exactly one of {current}, runnable_tasks(), blocked_tasks(),
+   and task_is_runnable / task_is_blocked agree with real membership of the ready queue *)
+Theorem C09_partition :
+  forall qok s t, InvC qok (current s) s -> In t (all_tasks s) ->
+  (current s = Some t /\ ~ In t (runnable_tasks s) /\ ~ In t (blocked_tasks s)) \/
+  (current s <> Some t /\ In t (runnable_tasks s) /\ ~ In t (blocked_tasks s) /\
+   hcnt s t = 1 /\ task_is_runnable s t = true /\ task_is_blocked s t = false) \/
+  (current s <> Some t /\ ~ In t (runnable_tasks s) /\ In t (blocked_tasks s) /\
+   hcnt s t = 0 /\ task_is_runnable s t = false /\ task_is_blocked s t = true).
+Proof. exact partition_classes. Qed.
+Print Assumptions C09_partition.
+
+Theorem C09_runnable_iff_in_queue :
+  forall qok s t, InvC qok (current s) s ->
+  t < length (tasks s) -> tdone s t = false -> current s <> Some t ->
+  (task_is_runnable s t = true <-> 0 < hcnt s t) /\
+  (task_is_blocked s t = true <-> hcnt s t = 0).
+Proof. exact runnable_iff_in_queue. Qed.
+Print Assumptions C09_runnable_iff_in_queue.
+
+(* blocked_tasks() is by construction a subset of all_tasks(); a handle in the ready queue
+   always belongs to an existing task *)
+Theorem C09_subsets :
+  forall qok s t, InvC qok (current s) s ->
+  (In t (blocked_tasks s) -> In t (all_tasks s)) /\
+  (In t (runnable_tasks s) -> t < length (tasks s)).
+Proof.
+  intros qok s t I. split.
+  - intros H. apply in_blocked_tasks in H. tauto.
+  - intros H. apply in_runnable_iff in H. destruct (Nat.lt_ge_cases t (length (tasks s))); auto.
+    destruct (i_oor I t H0). lia.
+Qed.
+Print Assumptions C09_subsets.
+
+(* the assertions inside runnable_tasks()/blocked_tasks() never fail, provided no DONE task
+   still has a handle queued (only possible in the model by completing a task's own future
+   with Future.set_result/set_exception/cancel, which asyncio.Task refuses) *)
+Theorem C09_query_ok :
+  forall qok s, InvC qok (current s) s ->
+  (forall t, In t (runnable_tasks s) -> tdone s t = false) -> (0 <= query_code s)%Z.
+Proof. exact query_code_ok. Qed.
+Print Assumptions C09_query_ok.
+
+(* ---- non-vacuity: a reachable state with a blocked, a done and a runnable task ---- *)
+Definition ex_waiter : coro :=
+  Call ONewFut (fun r => match r with
+                         | RVal f => Call (OAwaitFut (Z.to_nat f)) (fun _ => Ret 0)
+                         | RExc e => Raise e end).
+Definition ex_actions : list action :=
+  [ASpawn SPy ex_waiter; AStep; ASpawn SPlain (Ret 5); AStep; ASpawn SPlain (Ret 7)].
+Definition ex_state : st := fold_left do_action ex_actions (init_st false 0 [] [] [] 0).
+
+Lemma ex_actions_ok : actions_ok (init_st false 0 [] [] [] 0) ex_actions.
+Proof.
+  simpl. repeat split; auto; intros; try exact Logic.I.
+  all: try (destruct rep; simpl; auto; split; auto; intros; exact Logic.I).
+Qed.
+
+Example C09_example :
+  Inv09 qok_list ex_state /\
+  (* task 0 blocked on future 1, task 1 done, task 2 runnable *)
+  bo ex_state 0 = Some 1 /\ hcnt ex_state 0 = 0 /\ ccnt ex_state 0 1 = 1 /\
+  tdone ex_state 1 = true /\
+  tdone ex_state 2 = false /\ hcnt ex_state 2 = 1 /\
+  all_tasks ex_state = [0; 2] /\ runnable_tasks ex_state = [2] /\ blocked_tasks ex_state = [0] /\
+  query_code ex_state = 10102%Z.
+Proof.
+  split; [apply (C09_inv 0 [] [] [] 0 ex_actions ex_actions_ok)|].
+  vm_compute. repeat split; reflexivity.
+Qed.
